@@ -200,7 +200,18 @@ def gen_pass(rng, thorough):
     return nums, prt, ict, space, {"n": n, "n0": n0, "gaps": gaps, "phase": phase, "reset": reset_val, "kinds": sorted(set(kind))}
 
 
-def real_thermal(sat, chan, nums, prt, ict, space, counts):
+def pick_num_dtype(rng, nums):
+    """the dtype the line numbers reach the calibration with: the readers pass the file's own field (KLM: big-endian
+    unsigned 16 bit, POD: big-endian signed 16 bit), direct callers anything"""
+    cands = [None]
+    if 0 <= min(nums) and max(nums) <= 65535:
+        cands += [">u2", ">u2"]
+    if -32768 <= min(nums) and max(nums) <= 32767:
+        cands += [">i2"]
+    return rng.choice(cands)
+
+
+def real_thermal(sat, chan, nums, prt, ict, space, counts, num_dtype=None):
     from pygac.calibration.noaa import Calibrator, calibrate_thermal
     cal = Calibrator(sat)
     n = len(nums)
@@ -209,7 +220,7 @@ def real_thermal(sat, chan, nums, prt, ict, space, counts):
         warnings.simplefilter("ignore")
         try:
             bt = calibrate_thermal(cnt, np.asarray(prt, dtype=float), np.asarray(ict, dtype=float),
-                                   np.asarray(space, dtype=float), np.asarray(nums), chan, cal)
+                                   np.asarray(space, dtype=float), np.asarray(nums, dtype=num_dtype), chan, cal)
         except IndexError:
             return ("noPrtIndex",)
         except ValueError:
@@ -250,11 +261,24 @@ def direct_cases(ctx, tab):
         sat = sats[k % len(sats)]
         chan = 3 + (k // len(sats)) % 3
         nums, prt, ict, space, info = gen_pass(rng, ctx.thorough)
+        # some passes END at the largest line number their 16-bit field can hold (a full-resolution orbit has > 32767 lines;
+        # LAC readers accept numbers up to 65534): only the position in the five-line cycle matters, not the magnitude
+        r_ = rng.random()
+        if r_ < 0.12 and nums[-1] - nums[0] < 30000:
+            sh = 65534 - rng.randint(0, 3) - nums[-1]
+            nums = [x + sh for x in nums]
+            info = dict(info, n0=nums[0], num_dtype=">u2")
+        elif r_ < 0.24 and nums[-1] - nums[0] < 30000:
+            sh = 32767 - rng.randint(0, 3) - nums[-1]
+            nums = [x + sh for x in nums]
+            info = dict(info, n0=nums[0], num_dtype=rng.choice([">i2", ">u2"]))
+        else:
+            info = dict(info, num_dtype=pick_num_dtype(rng, nums))
         counts = sorted(set([0, 1023, 512] + [rng.randint(0, 1023) for _ in range(13)]))
         if ctx.thorough and k % 20 == 0:
             counts = list(range(1024))
         payload = {"sat": sat, "chan": chan, "nums": nums, "prt": prt, "ict": ict, "space": space, "counts": counts, "info": info}
-        got = real_thermal(sat, chan, nums, list(prt), list(ict), list(space), counts)
+        got = real_thermal(sat, chan, nums, list(prt), list(ict), list(space), counts, info["num_dtype"])
         want = oracle(tab[sat], chan, nums, prt, ict, space, counts)
         if got[0] != want[0]:
             ctx.violation("%s channel %d, %d lines from %d (%s): implementation outcome %s, KLM procedure gives %s" % (
@@ -367,7 +391,8 @@ def replay(ctx, path):
         run(ctx)
     else:
         tab = table()
-        got = real_thermal(p["sat"], p["chan"], p["nums"], list(p["prt"]), list(p["ict"]), list(p["space"]), p["counts"])
+        got = real_thermal(p["sat"], p["chan"], p["nums"], list(p["prt"]), list(p["ict"]), list(p["space"]), p["counts"],
+                           (p.get("info") or {}).get("num_dtype"))
         want = oracle(tab[p["sat"]], p["chan"], p["nums"], p["prt"], p["ict"], p["space"], p["counts"])
         if got[0] != want[0] or (got[0] == "ok" and not compare_bt(got[1], want[1])[0]):
             ctx.violation("implementation differs from the KLM procedure", p, cls="thermal-value")
